@@ -87,18 +87,35 @@ RULE = ("cases = seeded (API Generator|RandomState|module, every distribution me
 ASSUMPTIONS = ["numpy.random defines the per-chunk draws", "spawn process pool (1 worker) reused within a shard",
                "unseeded generators draw OS entropy: their witnesses are not replayable value-for-value"]
 BUDGET = {"quick": 90, "thorough": 560}
-FLOORS = {"quick": {"evaluations": 900, "distinct_nontrivial": 400,
-                    "counters": {"seeded_compared": 430, "seeded_processes": 25, "seeded_threads": 400, "unseeded_pairs": 220,
-                                 "together_vs_alone": 420, "own_draw_checked": 50, "choice_checked": 120, "permutation_checked": 55},
-                    "sets": {"seeded_api_dist": 30, "unseeded_mode_dist": 45}, "max_skipped_fraction": 0.15},
+FLOORS = {"quick": {"evaluations": 1350, "distinct_nontrivial": 550,
+                    "counters": {"seeded_compared": 680, "seeded_processes": 39, "seeded_threads": 630, "unseeded_pairs": 300,
+                                 "together_vs_alone": 600, "own_draw_checked": 69, "choice_checked": 150, "permutation_checked": 90},
+                    "sets": {"seeded_api_dist": 50, "unseeded_mode_dist": 75}, "max_skipped_fraction": 0.15},
           "thorough": {"evaluations": 10000, "distinct_nontrivial": 4800,
                        "counters": {"seeded_compared": 5000, "seeded_processes": 300, "seeded_threads": 4500, "unseeded_pairs": 2600,
                                     "together_vs_alone": 5000, "own_draw_checked": 600, "choice_checked": 1500, "permutation_checked": 650},
                        "sets": {"seeded_api_dist": 36, "unseeded_mode_dist": 60}, "max_skipped_fraction": 0.15}}
 # sibling facet (vf/mon/siblings.py): ~45 % of the smallest count of the five quick seeds on the unchanged tree; thorough =
 # quick floor x (thorough / quick stream size) x 0.6.  A run in which the facet never executed is INCONCLUSIVE.
-FLOORS["quick"]["counters"].update({"siblings_built": 360, "siblings_computed_together": 47, "siblings_with_different_values": 41})
-FLOORS["thorough"]["counters"].update({"siblings_built": 2600, "siblings_computed_together": 330, "siblings_with_different_values": 290})
+FLOORS["quick"]["counters"].update({"siblings_built": 630, "siblings_computed_together": 80, "siblings_with_different_values": 71})
+FLOORS["thorough"]["counters"].update({"siblings_built": 3400, "siblings_computed_together": 430, "siblings_with_different_values": 380})
+# parameter audit: input classes (~45 % of the smallest count of the five quick seeds; thorough = quick floor x 9 (stream ratio) x 0.6)
+_AUDIT = {"array_param_broadcast_len1": 31, "array_param_first": 82, "array_param_not_first": 39, "choice_axis_shuffle_keywords": 8,
+          "choice_noreplace_3d": 8, "choice_noreplace_int_population_Generator": 30, "choice_noreplace_int_population_RandomState": 28,
+          "choice_noreplace_p_da": 12, "choice_noreplace_p_list": 13, "choice_noreplace_population_over_255": 10,
+          "choice_noreplace_rebuilt": 105, "choice_p_da": 11, "choice_p_list": 4, "chunks_form_-1": 25, "chunks_form_bytes": 34,
+          "chunks_form_dict": 26, "chunks_form_tuple": 49, "dist_added_by_audit": 360, "generator_refused_call_before": 64,
+          "generator_used_before": 235, "integers_dtype": 22, "integers_endpoint": 14, "integers_one_argument": 12,
+          "layout_block_over_255": 16, "layout_irregular_ge3_blocks": 85, "params_by_keyword": 99, "permutation_array_like_input": 17,
+          "permutation_irregular_ge3_blocks": 5, "seed_form_not_int": 248, "size_form_int": 58, "size_form_list": 71,
+          "size_form_none": 157}
+FLOORS["quick"]["counters"].update(_AUDIT)
+FLOORS["thorough"]["counters"].update({k: int(v * 9 * 0.6) for k, v in _AUDIT.items()})
+# every (API, distribution) with one block and with several blocks; every seed form; the refusal of a multi-block sample
+# without replacement on every (API, population kind, split axis); samples without replacement on every (API, population kind, p)
+for _t in ("quick", "thorough"):
+    FLOORS[_t]["sets"].update({"api_dist_blocks": 110, "seed_forms": 9, "choice_noreplace_paths": 8, "choice_noreplace_refused_paths": 7,
+                               "irregular3_api_family": 4})
 EXHAUSTIVE_SPACE = None
 CLAIM = ("Every generated seeded array was rebuilt from a fresh generator and computed three times (sync twice, then threads "
          "or a process pool) with identical results; every generated pair of unseeded arrays had distinct names/keys and kept "
@@ -108,19 +125,18 @@ LEVEL_NOTE = "trusts numpy.random bit generators; schedulers are the real sync/t
 TECHNIQUE = "runtime monitoring: recomputation/scheduler differential, key-distinctness and sample-distinctness monitors"
 CASE_TIMEOUT = 90
 PENDING = {
-    "recompute:Generator:choice:values":
-        "Generator.choice puts live BitGenerator objects into the graph; every in-process compute advances them, so the same "
-        "array computes to different values each time (sync/threads), also when computed together with another array",
-    "choice-noreplace:size=None:IndexError@array/random.py:_choice_validate_params":
-        "choice(a, replace=False) with the default size=None (0-d result) raises IndexError: chunks[0] of an empty chunks tuple",
-    "choice-noreplace:Generator:split-later-axis:duplicates":
-        "Generator.choice(replace=False) only refuses outputs split along axis 0; an output split along a later axis "
-        "(size=(2, 3), chunks=(2, 1)) is sampled per chunk and contains duplicates",
-    "choice-noreplace:RandomState:split-later-axis:duplicates":
-        "same guard (shared _choice_validate_params) reached through RandomState.choice / da.random.choice",
     "wrap:zero-size-array-param:IndexError":
         "any distribution with an array-valued parameter of size 0 (e.g. normal(loc=np.empty((0, 3)), size=(0, 3))) raises "
         "IndexError in _wrap_func (element 0 of the parameter is taken for meta inference); NumPy returns an empty array",
+    # parameter audit (fix patches in /verif/fixes_ready/C28_0[123]_*.patch)
+    "wrap:Generator.integers:array-valued-high:ValueError":
+        "Generator.integers(low, high=<NumPy or dask array>) cannot be computed: array-valued keyword arguments are written into "
+        "the tasks of _wrap_func as bare tuples that nothing resolves",
+    "wrap:multivariate_hypergeometric:result-axis-not-declared":
+        "Generator.multivariate_hypergeometric does not declare the trailing len(colors) axis: lazy shape != computed shape for "
+        "one block, several blocks cannot be assembled (ValueError: could not broadcast input array)",
+    "permutation:array-like-input:AttributeError@array/slicing.py:shuffle_slice":
+        "Generator.permutation / RandomState.permutation of a NumPy array or a list raises AttributeError (no .chunks)",
 }
 
 # (Generator method, RandomState method, parameter names, continuous?)
@@ -357,7 +373,7 @@ def _wrapped_extras(rng, d, dist, api, shape):
     if dist == "random" and api == "gen" and rng.random() < 0.3:
         d["f32"] = True
     if dist == "integers":
-        if api == "gen" and rng.random() < 0.3:
+        if api == "gen" and rng.random() < 0.45:
             d["endpoint"] = True
         u = rng.random()
         if u < 0.3:
@@ -446,7 +462,7 @@ def cases(tier, seed):
             else:
                 a = rng.randint(1, max(1, n_pop // 2))
                 size = [a, rng.randint(1, max(1, n_pop // a))]
-                if n_pop >= 6 and rng.random() < 0.55:
+                if n_pop >= 6 and rng.random() < 0.7:
                     # 3-d sample: only the last axis (or a middle one) may be split below
                     b_ = rng.randint(1, max(1, n_pop // (a * 2)))
                     size = [a, b_, max(1, n_pop // (a * b_))]
@@ -471,7 +487,7 @@ def cases(tier, seed):
 
 def _choice_extras(rng, d, api, shape):
     """with-replacement choice inside the seeded / unseeded families: forms of p and size, the axis / shuffle keywords"""
-    d["pform"] = rng.choice(("np", "np", "list", "da"))
+    d["pform"] = rng.choice(("np", "list", "da", "da"))
     if len(shape) == 1 and rng.random() < 0.3:
         d["sform"] = "int"
     elif not shape and rng.random() < 0.5:
@@ -494,7 +510,7 @@ def _perm_input(rng):
         return {"x": {"kind": "int", "n": rng.choice((0, 1, 2, 5, 9, 300))}}
     shape = A.rand_shape(rng, maxnd=3, maxlen=7, minnd=1)
     c = [list(c) for c in A.rand_chunks(rng, shape)]
-    if shape[0] >= 4 and rng.random() < 0.5:
+    if shape[0] >= 4 and rng.random() < 0.7:
         c[0] = _irr3(rng, shape[0])
     # numpy / list: NumPy's documented array_like input (a dask array is the usual one)
     return {"x": {"kind": rng.choice(("dask", "dask", "dask", "dask", "numpy", "list")), "shape": list(shape), "c": c,
@@ -567,8 +583,8 @@ def _perm_value(x):
     if x["kind"] == "numpy":
         return vals, vals
     if x["kind"] == "list":
-        if 0 in x["shape"][1:]:
-            return vals, vals          # a nested list cannot express a zero-length later axis
+        if 0 in x["shape"] and len(x["shape"]) > 1:
+            return vals, vals          # a nested list cannot express a zero-length axis next to other axes
         return vals.tolist(), vals
     return da.from_array(vals, chunks=A.chunks_of_desc(x["c"])), vals
 
@@ -1136,6 +1152,8 @@ def _run_perm(case, ctx):
     kind = case["x"]["kind"]
     pre = "permutation:%s:%s" % (_apiname(api), kind) if kind in ("int", "dask") else "permutation:array-like-input"
     x, vals = _perm_value(case["x"])
+    if kind in ("numpy", "list"):
+        ctx.count("permutation_array_like_input")      # counted when attempted: the class is floored, not its success
     try:
         g = _generator(api, case["seed"])
         r = g.permutation(x)
@@ -1148,8 +1166,6 @@ def _run_perm(case, ctx):
         return
     v = np.asarray(v)
     ctx.count("permutation_checked")
-    if kind in ("numpy", "list"):
-        ctx.count("permutation_array_like_input")
     ctx.nontrivial = A.has_split(r.chunks) or (case["x"]["kind"] == "dask" and A.has_split(A.chunks_of_desc(case["x"]["c"])))
     if any(_is_irr3(cs) for cs in r.chunks):
         ctx.count("permutation_irregular_ge3_blocks")
